@@ -4,18 +4,27 @@ World S: a real aiohttp.web server (AppRunner/TCPSite/RequestHandler/HttpRequest
 HttpPayloadParser/DeflateBuffer/StreamReader) behind SimNet; a scripted RawClient sends one
 request whose body carries a Content-Encoding and Content-Length or chunked framing; the
 handler consumes it with request.read(), content.read(n), iter_chunked, iter_any, readany,
-readchunk, readline, post(), multipart().
+readchunk, readline, post(), multipart(); parts of a multipart/mixed body that carry their own
+Content-Encoding are decoded with part.read(decode=True), text(), json(), form(), decode_iter() and
+by forwarding the part as a payload (BodyPartReaderPayload.write() into a recording writer).
 World C: a scripted raw server answers a real ClientSession; the caller consumes the
 response body with read(), content.read(n), iter_chunked, iter_any, readany, readchunk,
-readline.
+readline, and MultipartReader.from_response() + part.decode_iter().
 
 Oracles: ref/codec.py (one-shot reference decoding with the codec libraries), the resident
-decoded-bytes bound sampled after every loop step, and the progress judgement at quiescence.
+decoded-bytes bound sampled after every loop step, the size of the pieces a part decoder hands
+out and the bytes one part-decoding call allocates and keeps alive at once (tracemalloc window),
+and the progress judgement at quiescence.
 """
 from __future__ import annotations
 
 import asyncio
+import base64
 import functools
+import json
+import tracemalloc
+import zlib
+from urllib.parse import parse_qsl
 
 from gen.http_gen import dec, enc
 from props import _srv
@@ -32,7 +41,10 @@ BATCH = 80
 ENUM_BATCH = 60
 ENUM_SHARE = 0.3
 ENUM_RULE = ("codec (gzip, zlib-deflate, raw deflate, br, zstd) x world (S, C) x framing (Content-Length, chunked, "
-             "EOF-delimited for C) x compressed stream cut at every 1/16th (0..16, 16 = intact), fixed small payload")
+             "EOF-delimited for C) x compressed stream cut at every 1/16th (0..16, 16 = intact), fixed small payload; plus "
+             "multipart part with its own Content-Encoding: decoding entry point (read(decode=True), text, json, form, "
+             "decode_iter, forwarded as payload; client: decode_iter) x part coding (gzip, deflate) x encoded part below / above 4 KiB x "
+             "(client_max_size 64 KiB, 4 MiB part) / (client_max_size 1 MiB, 600 KiB part)")
 TECHNIQUE = ("deterministic simulation: real server / real client on a virtual-time loop and in-memory network, scripted "
              "raw peer, seeded segmentation x consumer schedule x buffer limits, reference decoding with the codec "
              "libraries, resident-bytes bound sampled after every loop step, blocked-consumer judgement at quiescence")
@@ -42,21 +54,32 @@ LEVEL_TEXT = (
     "schedule x read_bufsize 16 B..64 KiB x client_max_size, against the real server and the real client. Bytes read "
     "are compared with a one-shot reference decoding; decoded bytes resident are sampled after every loop step; "
     "a blocked consumer is judged at quiescence after the peer has sent everything. The 1/16th truncation grid is "
-    "enumerated completely for every codec x framing x world. Sampling, not proof."
+    "enumerated completely for every codec x framing x world. 8 % of the scenarios send a multipart/mixed document "
+    "in which one part has its own Content-Encoding (gzip / deflate), an encoded size of 0.3..20 KiB (below and above "
+    "the 4 KiB from which aiohttp inflates a part through the executor) and inflates to 0.3..8 MiB; the part is "
+    "decoded through read(decode=True) / text() / json() / form() / decode_iter() / BodyPartReaderPayload.write() (server) "
+    "or decode_iter() (client). "
+    "Sampling, not proof."
 )
 LEVEL_NOTE = (
     "Trusted: ref/codec.py (thin use of zlib / brotli / backports.zstd, self-tested on hand-checked vectors), SimNet's "
     "TCP model, the harness' own consumer code. Bound parameters (calibrated, DESIGN.md 9/C09): resident <= 4*L + "
     "largest transport read (+64 KiB for br, + two read_chunk windows for multipart()), L = max(read_bufsize, largest "
     "read size asked for, client_max_size for request.read()/post()). Decoded sizes <= 1 MiB (quick) / 16 MiB "
-    "(thorough); <= 300 members per body; one exchange per run. Loop steps <= 1000 + 12 * (deliveries + consumer reads + peer writes + decoded/L). HttpPayloadParser._paused is read once per step only to *name* failures caused by the known stale-pause-flag defect (C09-F4), never to decide one."
+    "(thorough), parts with their own coding <= 8 MiB / 32 MiB; <= 300 members per body; one exchange per run. Part "
+    "decoding: one decode_iter() piece <= 4 * max(256 KiB step, read_bufsize); bytes allocated and alive at once inside one "
+    "part.read(decode=True)/text()/json()/form() call (tracemalloc peak between entering and leaving the call, everything "
+    "the simulator and harness allocate meanwhile included) <= resident bound + 6 * client_max_size + 4 steps of 256 KiB "
+    "+ 1 MiB; measured on the unchanged tree: <= 0.42 of that bound. Loop steps <= 1000 + 12 * (deliveries + consumer reads + peer writes + decoded/L). HttpPayloadParser._paused is read once per step only to *name* failures caused by the known stale-pause-flag defect (C09-F4), never to decide one."
 )
 RULE = (
     "Run = world (S request body / C response body) x codec x payload shape x mutation x framing (Content-Length, "
     "chunked with chunk sizes 1..4096, EOF-delimited) x write pieces with delays x segmentation policy x latency x "
     "net.hold window x consumer (API, read size, sleep pattern, stall, early stop) x read_bufsize x client_max_size x "
-    "peer close after the last byte. Non-trivial: the body was compressed and at least one of {transport paused, "
-    "decoded size >= 8*L, reference decoder failed, consumer slept between reads}. Distinct = interleaving signature."
+    "peer close after the last byte; part_bomb scenarios: decoding entry point x part coding x incompressible head "
+    "0..12000 B x run 0.3..8 MiB x 0..2 further small parts x client_max_size 16 KiB..1 MiB. Non-trivial: the body (or "
+    "a part of it) was compressed and at least one of {transport paused, decoded size (of the body or of a part) >= 8*L, "
+    "reference decoder failed, consumer slept between reads}. Distinct = interleaving signature."
 )
 COMPONENTS = {
     "real": ["aiohttp.http_parser HttpRequestParser/HttpResponseParser/HttpPayloadParser/DeflateBuffer (Python)",
@@ -72,6 +95,11 @@ ASSUMPTIONS = [
     "concatenated zlib-deflate streams are not a standard shape: the full concatenation or an error after the first "
     "member's bytes are both accepted; more than 1024 members in one body are out of scope (documented cap)",
     "read() without a size is excluded from the resident bound (documented to lift the limit)",
+    "a multipart part is inflated in steps of max_decompress_size = 256 KiB (request.multipart() and "
+    "MultipartReader.from_response() leave the default); decode_iter() is a bare decoder without client_max_size, and a "
+    "client-side part.read() has no limit at all, so only the piece size is judged for those",
+    "tracemalloc counts every Python allocation of the process while a measured window is open: the simulator's and the "
+    "harness' own allocations are inside the measured value and covered by a 1 MiB allowance",
     "a payload error on the server is the documented RequestPayloadError raised by the read call (or a 4xx HTTPException); "
     "the status of an *unhandled* RequestPayloadError is C01's question",
 ]
@@ -90,6 +118,12 @@ FORM_MODES = ("post_url", "post_mp", "multipart", "multipart_read", "mp_decode")
 MP_MODES = ("post_mp", "multipart", "multipart_read", "mp_decode")
 ACC_MODES = ("req_read", "post_url", "post_mp", "multipart_read", "mp_decode")  # accumulate up to client_max_size by design
 BOUNDARY = "c09bnd7f3a"
+# multipart parts with their own Content-Encoding (scenario kind "part_bomb")
+PART_STEP = 1 << 18  # the step in which a part is decoded (BodyPartReader max_decompress_size; request.multipart() leaves the default)
+# part.read(decode=True) / text() / json() / form() / decode_iter() / the part forwarded as a payload (BodyPartReaderPayload.write)
+PART_VIAS = ["read", "read", "text", "json", "form", "iter", "iter", "payload"]
+PART_SHARE = 0.08
+MEM_NOISE = 1 << 20  # allocations of the harness and the simulator inside a measured window (event log, deliveries, first-use caches)
 
 
 # =========================================================================== generation
@@ -165,6 +199,90 @@ def _form_plain(rng, mode: str, big: int, bomb: bool, codec: str):
     return _mp_doc(parts), f"multipart/form-data; boundary={BOUNDARY}"
 
 
+def _pb_segments(rng, via: str, head_n: int, fill_n: int, fill_first: bool) -> list:
+    """One part value for the entry point `via`, as segments (bytes, or (byte, count) for a run of one byte): head_n
+    incompressible bytes and a run of fill_n equal bytes, as a binary blob (read / iter), text, a JSON object or a
+    url-encoded form."""
+    if via in ("read", "iter", "payload"):
+        head, fill = rng.randbytes(head_n), (b"\0", fill_n)
+        return [fill, head] if fill_first else [head, fill]
+    head = base64.urlsafe_b64encode(rng.randbytes(head_n * 3 // 4 + 3))[:head_n]
+    fill = (b"z", fill_n)
+    a, b = (fill, head) if fill_first else (head, fill)
+    if via == "text":
+        return [a, b]
+    if via == "json":
+        return [b'{"a": "', a, b'", "b": "', b, b'"}']
+    return [b"a=", a, b"&b=", b]
+
+
+_RUN = 1 << 16
+
+
+def _pb_encode(pe: str, segments) -> bytes:
+    """The segments as one gzip member / one raw-deflate stream (what a multipart part with Content-Encoding carries;
+    aiohttp reads a part's deflate without zlib header).  Runs are fed block-wise: the plain value never exists in memory."""
+    if pe == "none":
+        return b"".join(x if isinstance(x, bytes) else x[0] * x[1] for x in segments)
+    c = zlib.compressobj(6, zlib.DEFLATED, 31 if pe == "gzip" else -15)
+    out = []
+    for x in segments:
+        if isinstance(x, bytes):
+            out.append(c.compress(x))
+        else:
+            block = x[0] * min(_RUN, x[1])
+            for _ in range(x[1] // _RUN if len(block) == _RUN else 1):
+                out.append(c.compress(block))
+            if len(block) == _RUN and x[1] % _RUN:
+                out.append(c.compress(block[:x[1] % _RUN]))
+    out.append(c.flush())
+    return b"".join(out)
+
+
+def _part_bomb_doc(rng, via: str, thorough: bool, spec=None):
+    """multipart/mixed document in which one part carries its own Content-Encoding (gzip / deflate) and inflates to
+    0.3 .. 8 MiB (32 MiB thorough); its encoded form lies below, near and above the size from which aiohttp hands
+    the decoding of a part to the executor (an incompressible head lifts it).  -> (plain bytes, content-type)"""
+    if spec is None:
+        sizes = [300 << 10, 1 << 20, 2 << 20, 2 << 20, 4 << 20, 4 << 20, 8 << 20] + ([16 << 20, 32 << 20] if thorough else [])
+        spec = {"head": rng.choice([0, 0, 3000, 4200, 4200, 6000, 6000, 12000]), "fill": rng.choice(sizes),
+                "enc": rng.choice(["gzip", "deflate"]), "fill_first": rng.random() < 0.5,
+                "others": rng.choice([0, 0, 1, 2]), "pos": rng.randrange(3)}
+    parts = []
+    for i in range(spec["others"]):
+        segs = [] if rng.random() < 0.15 else _pb_segments(rng, via, rng.choice([0, 10, 200]), rng.choice([0, 50, 3000]), rng.random() < 0.5)
+        pe = rng.choice(["gzip", "deflate", "none"])
+        parts.append((f"f{i}", _pb_encode(pe, segs), [] if pe == "none" else [("Content-Encoding", pe)]))
+    big = _pb_segments(rng, via, spec["head"], spec["fill"], spec["fill_first"])
+    parts.insert(min(spec["pos"], len(parts)), ("big", _pb_encode(spec["enc"], big), [("Content-Encoding", spec["enc"])]))
+    return _mp_doc(parts, mixed=True), f"multipart/mixed; boundary={BOUNDARY}"
+
+
+def _ref_part(pe, data: bytes, keep_max: int = 0):
+    """Reference decoding of one part's content, streamed: -> (ok, decoded length, crc32 of the decoded bytes, the
+    decoded bytes themselves if there are at most keep_max of them, else None).  pe: "gzip", "deflate" (raw) or None."""
+    if pe is None:
+        return True, len(data), zlib.crc32(data), (data if len(data) <= keep_max else None)
+    o = zlib.decompressobj(31 if pe == "gzip" else -15)
+    n, crc, keep, buf = 0, 0, bytearray(), data
+    try:
+        while True:
+            out = o.decompress(buf, _RUN)
+            n += len(out)
+            crc = zlib.crc32(out, crc)
+            if keep is not None:
+                keep += out
+                if len(keep) > keep_max:
+                    keep = None
+            buf = o.unconsumed_tail
+            if o.eof or (not out and not buf):
+                break
+    except zlib.error:
+        return False, n, crc, None
+    ok = o.eof and not o.unused_data
+    return ok, n, crc, (bytes(keep) if keep is not None else None)
+
+
 def _eff_L(scn) -> int:
     c = scn["consumer"]
     L = scn["limit"]
@@ -182,12 +300,25 @@ def _eff_L(scn) -> int:
 
 
 def gen(rng, tier, index):
+    scn = _gen(rng, tier, index, None)
+    # Sampled after everything else was drawn, so that all other scenarios are exactly what they were before.
+    if rng.random() < PART_SHARE:
+        scn = _gen(rng, tier, index, "part_bomb")
+    return scn
+
+
+def _gen(rng, tier, index, force):
     thorough = tier == "thorough"
     world = rng.choice("SC")
     codec = rng.choice(["gzip"] * 6 + ["deflate"] * 5 + ["br"] * 4 + ["zstd"] * 4 + ["identity"] * 2)
+    if force and rng.random() < 0.5:
+        codec = "identity"  # the part's own encoding is the subject; half of the documents travel without an outer coding
     raw = codec == "deflate" and rng.random() < 0.4
     limit = rng.choice(LIMITS)
     mode = rng.choice(S_MODES if world == "S" else C_MODES)
+    if force:
+        # (a client has no client_max_size: part.read() on a response is unlimited by design, so only decode_iter() there)
+        world, mode = rng.choice("SSSC"), "mp_decode"
     if mode == "readline" and limit < 64:
         limit = 64
     n = max(1, rng.choice([1, 3, 7, limit // 2, limit, limit + 1, 2 * limit, 4 * limit + 3, 1000, 4096, 65536]))
@@ -196,6 +327,10 @@ def gen(rng, tier, index):
     cms = rng.choice([256, 1024, 4096, 16384, 65536, 1 << 20])
     framing = rng.choice(["cl", "chunked", "chunked"] + (["eof"] if world == "C" else []))
     consumer = {"mode": mode, "n": n, "every": [0, 0], "pauses": [], "stop_after": None}
+    if force:
+        cms = rng.choice([16384, 65536, 65536, 65536, 1 << 18, 1 << 20])
+        consumer["via"] = rng.choice(PART_VIAS) if world == "S" else "iter"
+        consumer["mem"] = True  # measure what the decoding call holds at once
     r = rng.random()
     if r < 0.35:
         consumer["every"] = [rng.choice([1, 1, 2, 5]), rng.choice([1, 1, 2, 5])]
@@ -220,7 +355,11 @@ def gen(rng, tier, index):
     ctype = "application/octet-stream"
     members = []
     pattern = None
-    if mode in FORM_MODES:
+    if force:
+        plain, ctype = _part_bomb_doc(rng, consumer["via"], thorough)
+        kind = "part_bomb"
+        members = [RC.compress(codec, plain, raw=raw)]
+    elif mode in FORM_MODES:
         bomb = kind == "bomb"
         big = min(cap, 32 << 10 if codec == "identity" else cap, max(64, L * rng.choice([1, 2, 8, 20, 50, 200])))
         plain, ctype = _form_plain(rng, mode, big, bomb, codec)
@@ -362,6 +501,27 @@ def enumerate_cases(tier, seed):
                         "writes": [[0, wl]], "end": "close" if framing == "eof" else "keep", "end_delay": 2000 if world == "S" else 1,
                         "seg": "small" if i % 2 else "whole", "lat": 0, "hold": None,
                     }
+    # Multipart parts with their own Content-Encoding: decoding entry point x part coding x encoded size below / above
+    # the size up to which aiohttp inflates a part inline x (client_max_size 64 KiB, part of 4 MiB: to be refused) /
+    # (client_max_size 1 MiB, part of 600 KiB: to be returned).
+    rr = _r.Random(910)
+    for world, via in [("S", v) for v in ("read", "text", "json", "form", "iter", "payload")] + [("C", "iter")]:
+        for pe in ("gzip", "deflate"):
+            for head_n in (0, 6000):
+                for cms in (65536, 1 << 20) if world == "S" else (65536,):
+                    spec = {"head": head_n, "fill": 4 << 20 if cms == 65536 else 600 << 10, "enc": pe, "fill_first": False, "others": 0, "pos": 0}
+                    plain, ctype = _part_bomb_doc(rr, via, False, spec)
+                    head = _head(world, None, ctype, "cl", len(plain), False)
+                    yield {
+                        "world": world, "codec": "identity", "raw": False, "limit": 65536, "cms": cms,
+                        "consumer": {"mode": "mp_decode", "n": 512, "every": [0, 0], "pauses": [], "stop_after": None,
+                                     "via": via, "mem": True},
+                        "hdr": None, "kind": "part_bomb", "pattern": None, "mut": None, "framing": "cl", "chunks": [],
+                        "head": head, "body": dec(plain), "cut": None, "writes": [[0, len(head) + len(plain)]], "end": "keep",
+                        "end_delay": 2000 if world == "S" else 1, "lat": 0, "hold": None,
+                        # (a forwarded part is decoded chunk by chunk - known finding C09-F8 -: it travels in one read here)
+                        "seg": "whole" if via == "payload" else "mss",
+                    }
 
 
 def shrink(scn):
@@ -399,6 +559,29 @@ def shrink(scn):
         yield dict(scn, consumer=dict(c, n=64))
     if scn["world"] == "S" and scn["cms"] != 1 << 20:
         yield dict(scn, cms=1 << 20)
+    if scn["kind"] == "part_bomb":
+        yield from _shrink_parts(scn)
+
+
+def _shrink_parts(scn):
+    """part_bomb documents: without the outer coding; with one part only."""
+    r = RC.decode_all(scn["codec"], enc(scn["body"]))
+    parts = _ref_parts(r["out"]) if r["status"] == "ok" else None
+    if parts is None:
+        return
+    ctype = f"multipart/mixed; boundary={BOUNDARY}"
+
+    def redoc(plain):
+        head = _head(scn["world"], None, ctype, "cl", len(plain), "connection: close" in scn["head"].lower())
+        return dict(scn, codec="identity", raw=False, hdr=None, mut=None, framing="cl", chunks=[], head=head, body=dec(plain),
+                    cut=None, writes=[[0, len(head) + len(plain)]], end="close" if scn["framing"] == "eof" else scn["end"])
+
+    if scn["codec"] != "identity" or scn["framing"] != "cl":
+        yield redoc(r["out"])
+    if len(parts) > 1:
+        for hd, body in parts:
+            extra = [("Content-Encoding", hd["content-encoding"])] if "content-encoding" in hd else []
+            yield redoc(_mp_doc([(hd.get("x-name", "p"), body, extra)], mixed=True))
 
 
 def _reframe(scn, chunks):
@@ -483,7 +666,28 @@ class _Exp:
         mode = scn["consumer"]["mode"]
         self.want_parts = None
         self.parts_ok = True
-        if self.ok and mode in ("post_mp", "multipart", "multipart_read", "mp_decode"):
+        self.want_sig = None  # scenarios with consumer["via"]: [name, decoded length, crc32] per part, nothing large is kept
+        self.part_lens = []
+        via = scn["consumer"].get("via")
+        if self.ok and via is not None:
+            self.parts = _ref_parts(self.out)
+            if self.parts is not None:
+                self.want_sig = []
+                for hd, body in self.parts:
+                    pe = hd.get("content-encoding")
+                    # (the content itself is needed for json / form only, and only when the call may succeed)
+                    ok, n, crc, content = _ref_part(pe if pe in ("gzip", "deflate") else None, body,
+                                                    scn["cms"] if via in ("json", "form") else 0)
+                    self.parts_ok = self.parts_ok and ok
+                    self.part_lens.append(n)
+                    if ok and via in ("json", "form") and content is not None:
+                        try:
+                            content = _want_via(via, content)
+                            n, crc = len(content), zlib.crc32(content)
+                        except ValueError:
+                            self.parts_ok = False
+                    self.want_sig.append([_part_name(hd), n, crc])
+        elif self.ok and mode in ("post_mp", "multipart", "multipart_read", "mp_decode"):
             self.parts = _ref_parts(self.out)
             if self.parts is not None:
                 self.want_parts = []
@@ -533,9 +737,19 @@ class _St:
         self.status = None
         self.parts = None
         self.overhead = 0
+        self.part_returned = 0  # largest value part.read(decode=True) / text() / json() / form() returned
+        self.max_piece = 0  # largest piece a part's decode_iter() handed out
+        self.mem_peak = 0  # most bytes allocated and alive at once inside one part-decoding call (measured windows)
+        self.mem_windows = 0
+        self.part_chunks = 0  # most pieces read_chunk() handed out for one forwarded part (only to name a failure)
+        self.part_reject = None  # the part forwarded as a payload failed: (exception type, pieces read_chunk() had handed out)
+        self.part_exec = False  # a part's encoded form was larger than what aiohttp decodes inline
 
 
 def run(scn, ch, log=False):
+    if _TRACING[0]:  # a window of an earlier run was never left (its task was still blocked when that world was torn down)
+        _TRACING[0] = False
+        tracemalloc.stop()
     exp = _Exp(scn)
     cons = scn["consumer"]
     mode = cons["mode"]
@@ -767,7 +981,8 @@ def run(scn, ch, log=False):
                         f"(codec={scn['codec']} framing={scn['framing']} mode={mode} limit={limit})")
         if finished and oc is not None and oc != "ok" and oc != "cancelled":
             over_cms = world == "S" and mode in ACC_MODES and (
-                len(ref_out) > cms or (mode == "mp_decode" and exp.want_parts is not None and any(len(b) > cms for _, b in exp.want_parts)))
+                len(ref_out) > cms or (mode == "mp_decode" and exp.want_parts is not None and any(len(b) > cms for _, b in exp.want_parts))
+                or any(k > cms for k in exp.part_lens))
             if is_payload_err or oc.startswith("client_error:"):
                 # a mutated stream that still decodes gives a document the generator did not write: any refusal is fine
                 garbage_doc = form and ((exp.parts is None and exp.pairs is None) or not exp.parts_ok or scn["mut"] is not None)
@@ -791,7 +1006,14 @@ def run(scn, ch, log=False):
                                         or scn["mut"] is not None)
                 long_line = mode == "readline" and oc == "other:LineTooLong" and exp.max_line > 2 * limit
                 peer_gone = (exp.http_cut or (world == "S" and scn["end"] == "close")) and oc.startswith("other:Connection")
-                if not (garbage_doc or peer_gone or long_line):
+                if st.part_reject is not None and not (garbage_doc or peer_gone):
+                    # a part that is a valid gzip / deflate stream, forwarded as a payload
+                    violate("transparent", "valid_part_rejected:payload_write:" + ("part_read_in_several_chunks" if st.part_reject[1] > 1 else "one_chunk"),
+                            f"BodyPartReaderPayload.write() failed with {oc} {st.detail} on a part whose content is a valid "
+                            f"{[hd.get('content-encoding') for hd, _ in exp.parts or []]} stream (reference decodes {exp.part_lens} bytes); "
+                            f"read_chunk() had handed the part out in {st.part_reject[1]} pieces (encoded sizes "
+                            f"{[len(b) for _, b in exp.parts or []]}, seg {scn['seg']}, writes {len(scn['writes'])}, limit {limit})")
+                elif not (garbage_doc or peer_gone or long_line):
                     violate("error_class", f"unexpected_exception:{world}:{oc.split(':', 1)[-1]}" + (":stale_pause_flag" if st.stale_flag else ""),
                             f"consumer ({mode}, world {world}) failed with {oc} {st.detail} after {st.pos} decoded bytes; reference "
                             f"status {exp.ref['status']} ({exp.ref['why']}); expected {'a payload error' if not exp.ok else 'the data'} "
@@ -805,8 +1027,19 @@ def run(scn, ch, log=False):
                     violate("cms_enforced", "post_returned_over_cms", f"post() succeeded for a {len(ref_out)}-byte body, client_max_size={cms}")
                 elif exp.pairs is not None and scn["mut"] is None and st.result != [list(p) for p in exp.pairs]:
                     violate("transparent", "post_fields_differ", f"post() fields {st.result!r:.200} != reference {exp.pairs!r:.200}")
-            if mode in ("post_mp", "multipart", "multipart_read", "mp_decode") and exp.parts is not None and st.parts is not None \
-                    and exp.parts_ok and not st.stopped and scn["mut"] is None:
+            if exp.want_sig is not None and st.parts is not None and exp.parts_ok and not st.stopped and scn["mut"] is None:
+                if st.parts != exp.want_sig:
+                    violate("transparent", f"parts_differ:{mode}:{cons['via']}" + (":part_read_in_several_chunks" if st.part_chunks > 1 else ""),
+                            f"{mode} via part.{cons['via']}: parts [name, decoded length, crc32] {st.parts} != reference {exp.want_sig}"
+                            + (f" (read_chunk() handed a forwarded part out in {st.part_chunks} pieces; encoded sizes "
+                               f"{[len(b) for _, b in exp.parts]}, codings {[hd.get('content-encoding') for hd, _ in exp.parts]})"
+                               if cons["via"] == "payload" else ""))
+                # (decode_iter() is a bare decoder, the caller's loop limits it; a forwarded part is streamed, not accumulated)
+                if cons["via"] not in ("iter", "payload") and max(exp.part_lens, default=0) > cms:
+                    violate("cms_enforced", f"part_over_cms:{mode}", f"part.{cons['via']}() returned the content of a part that decodes to "
+                            f"{max(exp.part_lens)} bytes (largest value returned: {st.part_returned} bytes), client_max_size={cms}")
+            elif mode in ("post_mp", "multipart", "multipart_read", "mp_decode") and exp.parts is not None and st.parts is not None \
+                    and exp.parts_ok and not st.stopped and scn["mut"] is None and exp.want_parts is not None:
                 want = exp.want_parts
                 got = [[a, bytes(b) if not isinstance(b, str) else b.encode()] for a, b in st.parts]
                 if got != want:
@@ -842,6 +1075,25 @@ def run(scn, ch, log=False):
             violate("resident_bound", "resident_over_bound:one_extra_transport_read" if one_extra_idle else f"idle_buffer_over_bound:{scn['codec']}",
                     f"{st.max_idle} decoded bytes sat in the reader buffer while nobody was consuming (bound {idle_bound}, "
                     f"read_bufsize={limit}, codec={scn['codec']})")
+        # parts with their own Content-Encoding: the step in which a part is inflated, and what one decoding call holds
+        part_bound = 4 * max(PART_STEP, limit)
+        if st.max_piece > part_bound:
+            violate("resident_bound", "part_decode_step_over_bound:" + ("payload_write" if cons.get("via") == "payload" else "decode_iter"),
+                    f"{'BodyPartReaderPayload.write()' if cons.get('via') == 'payload' else 'part.decode_iter()'} handed out one piece of {st.max_piece} decoded bytes; a part is to be inflated in steps of "
+                    f"{PART_STEP} bytes, bound 4 * max(step, read_bufsize) = {part_bound} (largest decoded part "
+                    f"{max(exp.part_lens, default=0)} bytes, part encoded sizes "
+                    f"{[len(b) for _, b in exp.parts or []]}, client_max_size={cms})")
+        # held at once by read(decode=True) / text() / json() / form(): the stream and the raw part (the resident bound above),
+        # the decoded part up to client_max_size plus one step - twice while a growing buffer is copied -, one step being
+        # inflated (zlib's output buffer grows by doubling), and up to four copies of a returned value for text / json / form
+        mem_bound = bound + 6 * max(cms, 8192) + 4 * PART_STEP + MEM_NOISE
+        if st.mem_peak > mem_bound:
+            violate("resident_bound", f"part_decode_held_over_bound:{cons.get('via')}",
+                    f"decoding one multipart part with part.{cons.get('via')}() held {st.mem_peak} bytes at once (allocated during the "
+                    f"call and alive together); bound = resident bound {bound} + 6 * client_max_size {cms} + 4 decode steps of "
+                    f"{PART_STEP} + {MEM_NOISE} = {mem_bound} (largest decoded part "
+                    f"{max(exp.part_lens, default=0)} bytes, part encoded sizes "
+                    f"{[len(b) for _, b in exp.parts or []]}, outcome {oc})")
         # (3) progress -------------------------------------------------------------
         held = tr is not None and tr.inp.held
         if capped == "steps":
@@ -894,8 +1146,9 @@ def run(scn, ch, log=False):
                 violate("progress", "cleanup_blocked", "AppRunner.cleanup() did not return within 200 virtual seconds")
         stats = w.stats()
         paused_n = stats["faults"].get("pause_reading", 0)
-        compressed = scn["codec"] != "identity"
-        nontrivial = compressed and bool(paused_n or decoded_len >= 8 * L or not exp.ok or st.slept)
+        part_max = max(exp.part_lens, default=0)
+        compressed = scn["codec"] != "identity" or part_max > 0
+        nontrivial = compressed and bool(paused_n or decoded_len >= 8 * L or part_max >= 8 * L or not exp.ok or st.slept)
         probes = {
             "world_" + world: 1, "finished": int(finished), "outcome_" + str(oc).split(":")[0]: 1,
             "transport_paused": int(paused_n > 0), "pending_input_path": int(st.pending_input_seen),
@@ -909,6 +1162,10 @@ def run(scn, ch, log=False):
             "tiny_chunks": int(scn["framing"] == "chunked" and scn["chunks"][0] < 7),
             "stale_pause_flag_seen": int(st.stale_flag),
             "inconclusive_horizon": int(not finished and not viols and capped == "vtime"),
+            "part_bomb": int(scn["kind"] == "part_bomb"), "part_over_sync_limit": int(st.part_exec),
+            "part_ge_2MiB": int(part_max >= 2 << 20), "part_ge_8L": int(part_max >= 8 * L > 0),
+            "part_mem_window": int(st.mem_windows > 0), "part_pieces_ge_2": int(st.max_piece > 0 and part_max > st.max_piece),
+            "part_via_" + str(cons.get("via")): int("via" in cons),
         }
         res = {
             "violations": viols, "nontrivial": bool(nontrivial), "sig": stats["sig"], "digest": stats["digest"],
@@ -920,8 +1177,159 @@ def run(scn, ch, log=False):
             res["event_log"] = loop.event_log
             res["debug"] = {"outcome": oc, "detail": st.detail, "pos": st.pos, "decoded": decoded_len, "max_res": st.max_res,
                             "bound": bound, "L": L, "reads": st.reads, "ref": exp.ref["status"], "why": exp.ref["why"],
-                            "status": st.status, "steps_at_done": steps_at_done, "events": n_events, "rx_max": rx["max"]}
+                            "status": st.status, "steps_at_done": steps_at_done, "events": n_events, "rx_max": rx["max"],
+                            "max_piece": st.max_piece, "mem_peak": st.mem_peak, "mem_bound": mem_bound, "part_lens": exp.part_lens}
         return res
+
+
+_TRACING = [False]  # a measured window of this module switched tracemalloc on and has not switched it off yet
+
+
+class _MemWindow:
+    """Peak of the bytes allocated after entry and alive at the same time, until exit: what the awaited call (and
+    whatever ran while it was suspended) held at once.  Memory allocated before entry is not counted."""
+
+    def __init__(self, st, on):
+        self.st = st
+        self.on = bool(on)
+
+    def __enter__(self):
+        if self.on:
+            self.own = not tracemalloc.is_tracing()
+            if self.own:
+                tracemalloc.start(1)
+                _TRACING[0] = True
+            tracemalloc.reset_peak()
+            self.base = tracemalloc.get_traced_memory()[0]
+        return self
+
+    def __exit__(self, *a):
+        if self.on and tracemalloc.is_tracing():
+            peak = tracemalloc.get_traced_memory()[1] - self.base
+            if self.own:
+                tracemalloc.stop()
+                _TRACING[0] = False
+            self.st.mem_windows += 1
+            if peak > self.st.mem_peak:
+                self.st.mem_peak = peak
+        return False
+
+
+async def _via_parts(reader, cons, exp, st, after_read):
+    """Parts with their own Content-Encoding through the decoding entry points of BodyPartReader: read(decode=True),
+    text(), json(), form(), and decode_iter() over the raw part.  Only [name, decoded length, crc32] is kept."""
+    via = cons["via"]
+    st.parts = []
+    while True:
+        part = await reader.next()
+        if part is None:
+            return
+        name = part.name or part.headers.get("X-Name")
+        k = len(st.parts)
+        raw_len = len(exp.parts[k][1]) if exp.parts is not None and k < len(exp.parts) else None
+        if raw_len is not None and raw_len > 4096 and "content-encoding" in exp.parts[k][0]:
+            st.part_exec = True
+        if via == "iter":
+            raw = await part.read()
+            st.consumed += len(raw)
+            n_dec = crc = 0
+            async for piece in part.decode_iter(raw):
+                if len(piece) > st.max_piece:
+                    st.max_piece = len(piece)
+                n_dec += len(piece)
+                crc = zlib.crc32(piece, crc)
+                del piece
+                if await after_read():
+                    st.stopped = True
+                    return
+            del raw
+            st.parts.append([name, n_dec, crc])
+            continue
+        if via == "payload":
+            # the part forwarded the way aiohttp does it when a BodyPartReader is given as (part of) a body to send
+            from aiohttp import payload as _payload
+
+            orig, pieces = part.read_chunk, [0]
+
+            async def read_chunk(size=part.chunk_size, _orig=orig, _pieces=pieces):  # only counts, to *name* a failure
+                c = await _orig(size)
+                _pieces[0] += bool(c)
+                return c
+
+            part.read_chunk = read_chunk
+            wr = _PieceWriter(st, after_read)
+            try:
+                await _payload.get_payload(part).write(wr)
+            except (zlib.error, ValueError, RuntimeError) as e:
+                st.part_reject = (type(e).__name__, pieces[0])
+                raise
+            st.part_chunks = max(st.part_chunks, pieces[0])
+            st.consumed += raw_len if raw_len is not None else wr.n
+            st.parts.append([name, wr.n, wr.crc])
+            continue
+        with _MemWindow(st, cons.get("mem")):
+            if via == "text":
+                b = (await part.text()).encode("utf-8")
+            elif via == "json":
+                b = _canon(await part.json())
+            elif via == "form":
+                b = _canon(await part.form())
+            else:
+                b = bytes(await part.read(decode=True))
+        st.consumed += raw_len if raw_len is not None else len(b)
+        st.parts.append([name, len(b), zlib.crc32(b)])
+        if len(b) > st.part_returned:
+            st.part_returned = len(b)
+        del b
+        await after_read()
+
+
+class _PieceWriter:
+    """What Payload.write() needs of a stream writer; keeps length and crc32 of what it is given and the largest piece."""
+
+    def __init__(self, st, after_read):
+        self.st, self.after_read, self.n, self.crc = st, after_read, 0, 0
+
+    async def write(self, chunk, *, drain=True, LIMIT=0x10000):
+        if len(chunk) > self.st.max_piece:
+            self.st.max_piece = len(chunk)
+        self.n += len(chunk)
+        self.crc = zlib.crc32(chunk, self.crc)
+        del chunk
+        await self.after_read()  # a slow receiver
+
+    async def write_eof(self, chunk=b""):
+        if chunk:
+            await self.write(chunk)
+
+    async def drain(self):
+        pass
+
+    def enable_compression(self, *a, **kw):
+        pass
+
+    def enable_chunking(self):
+        pass
+
+    async def write_headers(self, status_line, headers):
+        pass
+
+    def send_headers(self):
+        pass
+
+
+def _canon(obj) -> bytes:
+    """Comparable form of what part.json() / part.form() return."""
+    return json.dumps(obj, sort_keys=True, separators=(",", ":")).encode()
+
+
+def _want_via(via: str, b: bytes) -> bytes:
+    """What the entry point `via` must hand back for a part whose decoded content is b."""
+    if via == "json":
+        return _canon(json.loads(b.decode("utf-8")) if b else None)
+    if via == "form":
+        return _canon(parse_qsl(b.rstrip().decode("utf-8"), keep_blank_values=True) if b else [])
+    return b
 
 
 # --------------------------------------------------------------------------- world S
@@ -945,6 +1353,9 @@ def _run_server(scn, exp, st, w, pieces, arm, done, take, after_read, consume_st
             st.parts = [[k, v] for k, v in data.items()]
         elif mode in ("multipart", "multipart_read", "mp_decode"):
             reader = await request.multipart()
+            if "via" in cons:
+                await _via_parts(reader, cons, exp, st, after_read)
+                return
             st.parts = []
             while True:
                 part = await reader.next()
@@ -1099,6 +1510,8 @@ def _run_client(scn, exp, st, w, pieces, arm, take, after_read, consume_stream, 
                 if mode == "resp_read":
                     st.result = await resp.read()
                     take(st.result)
+                elif "via" in scn["consumer"]:
+                    await _via_parts(aiohttp.MultipartReader.from_response(resp), scn["consumer"], exp, st, after_read)
                 else:
                     await consume_stream(resp.content)
                 st.outcome = "ok"
@@ -1135,3 +1548,18 @@ def oracle_selftest():
     assert _ref_parts(doc[:-9]) is None and _ref_parts(b"x" + doc) is None
     framed = RC.chunked_encode(b"abcdefghij", [3, 2])
     assert _chunk_bounds(b"abcdefghij", [3, 2]) == [8, 15, 22, 29, 35] and framed[35:] == b"0\r\n\r\n", framed
+    # block-wise part encoder and streamed part reference against the one-shot library calls
+    segs = [b"head", (b"z", 3 * _RUN + 5), b"tail", (b"q", 7), (b"e", 0)]
+    plain = b"head" + b"z" * (3 * _RUN + 5) + b"tail" + b"q" * 7
+    assert _pb_encode("none", segs) == plain
+    assert zlib.decompress(_pb_encode("gzip", segs), 31) == plain and zlib.decompress(_pb_encode("deflate", segs), -15) == plain
+    for pe in ("gzip", "deflate"):
+        z = _pb_encode(pe, segs)
+        assert _ref_part(pe, z) == (True, len(plain), zlib.crc32(plain), None)
+        assert _ref_part(pe, z, len(plain)) == (True, len(plain), zlib.crc32(plain), plain)
+        assert _ref_part(pe, z[:-3])[0] is False and _ref_part(pe, z + b"x")[0] is False
+    hello_gz = bytes.fromhex("1f8b08000000000002ffcb48cdc9c9070086a6103605000000")  # gzip of b"hello" (hand-checked in ref/codec.py)
+    assert _ref_part("gzip", hello_gz, 10) == (True, 5, 0x3610A686, b"hello")
+    assert _ref_part(None, b"abc", 3) == (True, 3, zlib.crc32(b"abc"), b"abc")
+    assert _want_via("json", b'{"b": 1, "a": "x"}') == b'{"a":"x","b":1}' and _want_via("json", b"") == b"null"
+    assert _want_via("form", b"a=1&b=&a=2\n") == b'[["a","1"],["b",""],["a","2"]]' and _want_via("text", b"t") == b"t"
